@@ -128,6 +128,10 @@ def shard(ctx):
     ctx.eval_timeout = EVAL_TIMEOUT
     ctx.drive("main", gen_case, ctx.n(2500, 40000), max_bytes=900)
     ctx.drive("towers", gen_tower, ctx.n(12, 120), max_bytes=64)
+    # a ladder of nesting depths below the known limit, split over the shards
+    for j, d in enumerate(range(100, 900, 50 if ctx.tier == "quick" else 10)):
+        if j % ctx.nshards == ctx.shard:
+            ctx.check(dict(s="", tower=d, centre="[C]", table=0))
     if ctx.tier == "thorough":
         fuzz(ctx, "c08_target", runs=40000)
 
